@@ -43,11 +43,14 @@ structure CountMat where
 def assignsToCounts (rows : List (List Int)) (lag : Int) (maxN : Option Nat) (sliding : Bool) :
     Except Err CountMat := do
   if lag < 1 then throw .dataInvalid
+  -- `np.hstack([])` raises when there is no trajectory at all
+  if rows.isEmpty then throw .valueError
   let n ← match maxN with
     | some n => pure n
     | none => match maxState rows with
       | none => throw .valueError       -- `np.concatenate([]).max()` raises
-      | some m => pure (m + 1).toNat
+      | some m => if m + 1 < 0 then throw .valueError   -- negative shape is rejected by coo_matrix
+                  else pure (m + 1).toNat
   let ps ← allPairs rows lag.toNat sliding
   -- coo_matrix rejects coordinates outside the shape (negative or ≥ n)
   if ps.any (fun p => p.1 < 0 ∨ p.2 < 0 ∨ p.1 ≥ n ∨ p.2 ≥ n) then throw .valueError
